@@ -28,6 +28,33 @@ CLAIMED = {
                      "correspondence on reference-encoder files",
         "design_ref": "DESIGN.md section 7 (C03)",
     },
+    "C09": {
+        "text": "Theorems over every history of calls {write s, finalize} (any shapes of any types, rejected writes included; any "
+                "length), with or without index destination, ending in drop or finalize-then-drop: C09_finalize_irrelevant (both "
+                "files byte-identical to those of the writes alone followed by a plain drop), C09_files (the files are a function "
+                "of the accepted shapes), C09_finalize_complete (after any history finalize succeeds, leaves both destinations "
+                "flushed and holding the complete files of the shapes accepted so far), C09_clean_finalize_silent (no I/O when "
+                "nothing is new). Induction on the history with the writer invariant WInv (Proofs/WriterInv.v). Tie: exhaustive "
+                "histories over {write a, write b, finalize} up to a bound x 13 types x {shx, no shx} x 3 endings, bytes and "
+                "complete operation traces compared with the model; oracle on the real bytes.",
+        "note": COMMON_NOTE + "Destinations are modelled as Cursor<Vec<u8>> (write at position with zero fill, seek Start/End, flush); "
+                "write_shapes-consumption ending is covered by the correspondence and the oracle, the theorem covers drop and "
+                "finalize+drop. call_ok restricts histories to shapes whose record length fits the i32 field.",
+        "technique": "Coq proof (writer invariant by induction over call histories) + exhaustive bounded-history differential "
+                     "correspondence (extracted model and vm_compute) + byte-level oracle",
+        "design_ref": "DESIGN.md section 7 (C09)",
+    },
+    "C10": {
+        "text": "Theorems for every reachable writer state (any history) and every offered shape of another type: C10_reject (the "
+                "call returns MismatchShapeType naming the file's type and the offered type; writer state and both destinations "
+                "- buffers, positions, operation counters, logs - are returned unchanged) and C10_erase (final files equal those "
+                "of the history with rejected calls removed). Tie: all 13x12 ordered type pairs, rejected call inserted at every "
+                "position of bounded histories; traces must be equal.",
+        "note": COMMON_NOTE + "The complete writer's attribute row (not written for a rejected shape) belongs to C08's model.",
+        "technique": "Coq proof (writer invariant, case analysis on the type comparison) + exhaustive type-pair differential "
+                     "correspondence + trace oracle",
+        "design_ref": "DESIGN.md section 7 (C10)",
+    },
     "C18": {
         "text": "Theorem for every shape value (unbounded part counts and lengths): bytes emitted by write_to = size_in_bytes, "
                 "record content length = (size+4)/2 exactly (C18_size, C18_record_len, C18_record_bytes; closed under the global "
